@@ -1025,7 +1025,7 @@ class MinOnOffTask(OneShotTask):
             MinOnOffTask._debug("present_value_change %r %r", old_value, new_value)
 
         # if there's no value change, skip all this
-        if old_value == new_value:
+        if (old_value is None) or (old_value == new_value):
             if _debug:
                 MinOnOffTask._debug("    - no state change")
             return
